@@ -189,6 +189,27 @@ func (fx *Fixture) WritePoliciesFile(label string) {
 	}
 }
 
+// NewRaw is New with a given policies file.
+func NewRaw(dir string, policies []byte, start time.Time) (*Fixture, config.BuildResult) {
+	if err := os.MkdirAll(dir, 0o755); err != nil {
+		vh.Die("mkdir: %v", err)
+	}
+	fx := &Fixture{Dir: dir}
+	os.Setenv("LUNAR_PROXY_POLICIES_CONFIG", fx.PoliciesPath())
+	os.Setenv("LUNAR_PROXY_CONFIG_DIR", dir)
+	if err := os.WriteFile(fx.PoliciesPath(), policies, 0o644); err != nil {
+		vh.Die("write policies: %v", err)
+	}
+	contextmanager.Get().SetMockClock()
+	contextmanager.Get().GetMockClock().Set(start)
+	res, err := config.BuildInitialFromFile()
+	if err != nil {
+		vh.Die("BuildInitialFromFile: %v", err)
+	}
+	fx.Accessor = res.Accessor
+	return fx, res
+}
+
 // New builds a fresh accessor through the real start-up path config.BuildInitialFromFile on a fresh mock clock.
 func New(dir, label string, start time.Time) *Fixture {
 	if err := os.MkdirAll(dir, 0o755); err != nil {
